@@ -2,8 +2,9 @@ package bounds
 
 import (
 	"fmt"
-	"os"
 	"go/token"
+	"go/types"
+	"os"
 	"sort"
 	"strings"
 
@@ -15,8 +16,9 @@ import (
 // lvar is a loop variable: an integer quantity that may change per iteration.
 type lvar struct {
 	intVar bool // an integer variable (phi or memory cell), as opposed to a len/cap
-	name string
-	head *lin.Lin // the atom standing for its value at the loop head
+	lenVar bool // the length of a slice-valued phi or memory cell
+	name   string
+	head   *lin.Lin // the atom standing for its value at the loop head
 	// init: value on entry in head-disjunct d (nil = unknown)
 	init func(d *disjunct) *lin.Lin
 	// next: value after one iteration in back-edge disjunct b arriving from block `from`
@@ -37,7 +39,10 @@ type cand struct {
 	build func(d *disjunct, cur func(i int) *lin.Lin, init func(i int) *lin.Lin) (lin.Ineq, bool)
 }
 
-const initAuxPrefix = "init:"
+type loopMemo struct {
+	variantMem map[string]bool
+	dropped    map[string]bool
+}
 
 // analyzeLoop computes an inductive invariant for loop L by Houdini and returns the exit states.
 func (it *interp) analyzeLoop(f frameID, fn *ssa.Function, L *loop, ins []edgeIn) map[edgeKey]*state {
@@ -51,8 +56,12 @@ func (it *interp) analyzeLoop(f frameID, fn *ssa.Function, L *loop, ins []edgeIn
 	if entry.empty() {
 		return nil
 	}
+	memoKey := fmt.Sprintf("%d|%p", f, head)
 	for i, d := range entry.ds {
-		d.tag = fmt.Sprintf("h%d", i)
+		if d.tags == nil {
+			d.tags = map[string]string{}
+		}
+		d.tags[memoKey] = fmt.Sprintf("h%d", i)
 	}
 	var phis []*ssa.Phi
 	for _, in := range head.Instrs {
@@ -72,7 +81,7 @@ func (it *interp) analyzeLoop(f frameID, fn *ssa.Function, L *loop, ins []edgeIn
 	}
 	byTag := map[string]*disjunct{}
 	for _, d := range entry.ds {
-		byTag[d.tag] = d
+		byTag[d.tags[memoKey]] = d
 	}
 	// ---- loop variables from phis
 	var lvars []lvar
@@ -83,7 +92,7 @@ func (it *interp) analyzeLoop(f frameID, fn *ssa.Function, L *loop, ins []edgeIn
 			at := it.valAtom(f, p)
 			lvars = append(lvars, lvar{intVar: true, name: p.Name(), head: at,
 				init: func(d *disjunct) *lin.Lin {
-					r := byTag[d.tag]
+					r := byTag[firstTag(d.tags[memoKey])]
 					if r == nil {
 						return nil
 					}
@@ -105,9 +114,9 @@ func (it *interp) analyzeLoop(f frameID, fn *ssa.Function, L *loop, ins []edgeIn
 				if k == 1 {
 					nm = "cap(" + p.Name() + ")"
 				}
-				lvars = append(lvars, lvar{name: nm, head: at,
+				lvars = append(lvars, lvar{lenVar: k == 0, name: nm, head: at,
 					init: func(d *disjunct) *lin.Lin {
-						r := byTag[d.tag]
+						r := byTag[firstTag(d.tags[memoKey])]
 						if r == nil {
 							return nil
 						}
@@ -192,8 +201,27 @@ func (it *interp) analyzeLoop(f frameID, fn *ssa.Function, L *loop, ins []edgeIn
 		}
 	}
 
-	variantMem := map[string]bool{} // memory cells that change in the loop
-	dropped := map[string]bool{}    // candidate names refuted so far
+	// candidates refuted (and cells found variant) in an earlier analysis of this loop in this
+	// frame stay refuted: entry states only get weaker over the enclosing Houdini rounds, and
+	// assuming fewer invariants is always sound.
+	memo := it.loopMemo[memoKey]
+	if memo == nil {
+		memo = &loopMemo{variantMem: map[string]bool{}, dropped: map[string]bool{}}
+		it.loopMemo[memoKey] = memo
+	}
+	// field names loaded inside the loop: only those memory cells can matter as invariant terms
+	loadedFields := map[string]bool{}
+	for _, b := range blocks {
+		for _, in := range b.Instrs {
+			if u, ok := in.(*ssa.UnOp); ok && u.Op == token.MUL {
+				if fa, ok := u.X.(*ssa.FieldAddr); ok {
+					loadedFields[fieldNameOf(fa)] = true
+				}
+			}
+		}
+	}
+	variantMem := memo.variantMem // memory cells that change in the loop
+	dropped := memo.dropped       // candidate names refuted so far
 	var finalOut regionOut
 	for round := 0; round < 12; round++ {
 		// ---- memory loop variables for variant cells
@@ -232,7 +260,7 @@ func (it *interp) analyzeLoop(f frameID, fn *ssa.Function, L *loop, ins []edgeIn
 				memVars = append(memVars, memVar{key: k, valA: a, cellType: cell})
 				mvars = append(mvars, lvar{intVar: true, name: "mem" + cell.a.path, head: a,
 					init: func(d *disjunct) *lin.Lin {
-						r := byTag[d.tag]
+						r := byTag[firstTag(d.tags[memoKey])]
 						if r == nil {
 							return nil
 						}
@@ -253,9 +281,9 @@ func (it *interp) analyzeLoop(f frameID, fn *ssa.Function, L *loop, ins []edgeIn
 				memVars = append(memVars, memVar{key: k, isSlice: true, lenA: la, capA: ca, cellType: cell})
 				for w, at := range []*lin.Lin{la, ca} {
 					w := w
-					mvars = append(mvars, lvar{name: fmt.Sprintf("mem%s.%d", cell.a.path, w), head: at,
+					mvars = append(mvars, lvar{lenVar: w == 0, name: fmt.Sprintf("mem%s.%d", cell.a.path, w), head: at,
 						init: func(d *disjunct) *lin.Lin {
-							r := byTag[d.tag]
+							r := byTag[firstTag(d.tags[memoKey])]
 							if r == nil {
 								return nil
 							}
@@ -285,6 +313,9 @@ func (it *interp) analyzeLoop(f frameID, fn *ssa.Function, L *loop, ins []edgeIn
 			var ks []string
 			for k, c := range entry.ds[0].mem {
 				if variantMem[k] || strings.HasSuffix(k, "|zero") {
+					continue
+				}
+				if i := strings.LastIndex(c.a.path, "."); i < 0 || !loadedFields[c.a.path[i+1:]] {
 					continue
 				}
 				if c.val.kind == kSlice || c.val.kind == kInt {
@@ -401,42 +432,47 @@ func (it *interp) analyzeLoop(f frameID, fn *ssa.Function, L *loop, ins []edgeIn
 			// memory variance
 			for _, be := range ro.backs {
 				for _, b := range be.st.ds {
-					h := byTag[b.tag]
-					if h == nil {
-						// merged disjunct: compare against every head disjunct conservatively
-						for _, hh := range entry.ds {
-							h = hh
-							break
+					// a merged disjunct descends from several head disjuncts: a cell is invariant
+					// only if it still has the value it had in every one of them
+					var heads []*disjunct
+					for _, t := range strings.Split(b.tags[memoKey], "+") {
+						if hh := byTag[t]; hh != nil {
+							heads = append(heads, hh)
 						}
 					}
-					for k, bc := range b.mem {
-						if strings.HasSuffix(k, "|zero") || variantMem[k] {
-							continue
-						}
-						if _, ok := h.mem[k]; ok {
-							continue
-						}
-						if _, z := h.mem[zeroMarker(bc.a)]; z && bc.typ != nil {
-							// cell of a zero-initialised object first touched inside the loop:
-							// make its entry value explicit so that variance is detected
-							for _, e := range entry.ds {
-								if _, has := e.mem[k]; !has {
-									if zr := it.zeroRep(bc.typ); zr.kind != kNone {
-										e.mem[k] = &memCell{a: bc.a, typ: bc.typ, val: zr}
-										changedMem = true
+					if len(heads) == 0 {
+						heads = entry.ds
+					}
+					for _, h := range heads {
+						for k, bc := range b.mem {
+							if strings.HasSuffix(k, "|zero") || variantMem[k] {
+								continue
+							}
+							if _, ok := h.mem[k]; ok {
+								continue
+							}
+							if _, z := h.mem[zeroMarker(bc.a)]; z && bc.typ != nil {
+								// cell of a zero-initialised object first touched inside the loop:
+								// make its entry value explicit so that variance is detected
+								for _, e := range entry.ds {
+									if _, has := e.mem[k]; !has {
+										if zr := it.zeroRep(bc.typ); zr.kind != kNone {
+											e.mem[k] = &memCell{a: bc.a, typ: bc.typ, val: zr}
+											changedMem = true
+										}
 									}
 								}
 							}
 						}
-					}
-					for k, c := range h.mem {
-						if strings.HasSuffix(k, "|zero") || variantMem[k] {
-							continue
-						}
-						bc, ok := b.mem[k]
-						if !ok || !(bc == c || repEqual(bc.val, c.val)) {
-							variantMem[k] = true
-							changedMem = true
+						for k, c := range h.mem {
+							if strings.HasSuffix(k, "|zero") || variantMem[k] {
+								continue
+							}
+							bc, ok := b.mem[k]
+							if !ok || !(bc == c || repEqual(bc.val, c.val)) {
+								variantMem[k] = true
+								changedMem = true
+							}
 						}
 					}
 				}
@@ -457,7 +493,7 @@ func (it *interp) analyzeLoop(f frameID, fn *ssa.Function, L *loop, ins []edgeIn
 						q, built := c.build(b, nxt, ini)
 						if !built || !it.entails(b, q) {
 							if os.Getenv("RTPCHECK_LOOPDBG") == "2" && built {
-								fmt.Printf("    fail %s from b%d tag=%s: %s\n", c.name, from.Index, b.tag, it.describe(b, q))
+								fmt.Printf("    fail %s from b%d tag=%s: %s\n", c.name, from.Index, b.tags[memoKey], it.describe(b, q))
 							}
 							ok = false
 							break
@@ -597,8 +633,8 @@ func genCandidates(vars []lvar, terms []term) []cand {
 		for j := i + 1; j < len(vars); j++ {
 			i, j := i, j
 			ni, nj := vars[i].name, vars[j].name
-			if !vars[i].intVar || !vars[j].intVar {
-				continue // pair templates relate integer counters only, not slice lengths
+			if !(vars[i].intVar || vars[i].lenVar) || !(vars[j].intVar || vars[j].lenVar) || (vars[i].lenVar && vars[j].lenVar) {
+				continue // pair templates relate integer counters, or one counter and one slice length
 			}
 			for _, sgn := range []int64{1, -1} {
 				sgn := sgn
@@ -618,7 +654,7 @@ func genCandidates(vars []lvar, terms []term) []cand {
 					})
 				}
 			}
-			for _, k := range []int64{4} {
+			for _, k := range []int64{4, 5} {
 				k := k
 				for _, swap := range []bool{false, true} {
 					swap := swap
@@ -656,4 +692,18 @@ func genCandidates(vars []lvar, terms []term) []cand {
 		}
 	}
 	return out
+}
+
+func fieldNameOf(fa *ssa.FieldAddr) string {
+	st := fa.X.Type().Underlying().(*types.Pointer).Elem().Underlying().(*types.Struct)
+	return st.Field(fa.Field).Name()
+}
+
+// firstTag returns the tag when it names a single head disjunct ("" for merged ones: their
+// initial values are not unique, so init-relative candidates cannot be instantiated).
+func firstTag(t string) string {
+	if strings.Contains(t, "+") {
+		return ""
+	}
+	return t
 }
